@@ -86,6 +86,48 @@ func init() {
 	harnessAPI["vImplies"] = func(t *Task, fn *ssa.Function, args []Value) Value {
 		return t.p.C.Implies(args[0].(*Term), args[1].(*Term))
 	}
+	harnessAPI["vActive"] = func(t *Task, fn *ssa.Function, args []Value) Value {
+		p := t.p
+		pf := p.W.Opts.AssertPrefix
+		return p.C.Bool(pf == "" || pf == p.constStr(args[0], "prefix"))
+	}
+	harnessAPI["vReachIf"] = func(t *Task, fn *ssa.Function, args []Value) Value {
+		p := t.p
+		label := p.constStr(args[1], "reach label")
+		cond := args[0].(*Term)
+		if p.reached[label] || cond.IsFalse() {
+			return nil
+		}
+		if cond.IsTrue() {
+			p.reached[label] = true
+			return nil
+		}
+		if p.W.Opts.Concrete != nil {
+			if p.C.Eval(cond, p.W.Opts.Concrete) == 1 {
+				p.reached[label] = true
+			}
+			return nil
+		}
+		if p.W.reachedIf[label] {
+			return nil // already witnessed by an earlier path of this worker
+		}
+		if p.pos < len(p.dec) {
+			return nil
+		}
+		if p.C.Eval(cond, p.getModel()) == 1 {
+			p.reached[label] = true
+			p.W.reachedIf[label] = true
+			return nil
+		}
+		if res, _ := p.check(cond); res == Sat {
+			p.reached[label] = true
+			p.W.reachedIf[label] = true
+		}
+		return nil
+	}
+	harnessAPI["vIte"] = func(t *Task, fn *ssa.Function, args []Value) Value {
+		return t.p.C.Ite(args[0].(*Term), args[1].(*Term), args[2].(*Term))
+	}
 	harnessAPI["vAssume"] = func(t *Task, fn *ssa.Function, args []Value) Value {
 		t.p.Assume(args[0].(*Term))
 		return nil
@@ -192,7 +234,7 @@ func init() {
 		return nil
 	}
 	harnessAPI["vMapOrderFixed"] = func(t *Task, fn *ssa.Function, args []Value) Value {
-		t.p.W.Opts.MapOrderFixed = t.p.Branch(args[0].(*Term))
+		t.p.mapOrderFixed = t.p.Branch(args[0].(*Term))
 		return nil
 	}
 }
